@@ -334,7 +334,7 @@ def finish(rec: Recorder, wall_s: float | None = None) -> int:
         "events_by_monitor": dict(sorted(rec.events.items())),
         "distinct_by_monitor": {k: len(v) for k, v in sorted(rec.sigs.items())},
         "deciding_monitors": sorted(rec.deciding),
-        "config_classes": dict(sorted(rec.classes.items(), key=lambda kv: -kv[1])[:80]),
+        "config_classes": dict(sorted(rec.classes.items(), key=lambda kv: -kv[1])[:400]),
         "skipped": rec.skips,
         "known_findings_hit": [{"id": k["id"], "count": v["count"]} for k, v in known_hit],
         "violations_by_mechanism": {f"{v['monitor']}|{v['mech']}": v["count"] for v in real},
